@@ -830,7 +830,13 @@ impl Server {
             let response = if let Some(sync_resp) = sync_response {
                 sync_resp
             } else {
-                self.process_frame(frame, id)?
+                // A command that fails is answered with an error reply (as EXEC already does for
+                // queued commands); only connection-level failures end the connection
+                match self.process_frame(frame, id) {
+                    Ok(resp) => resp,
+                    Err(e @ FerrousError::Connection(_)) | Err(e @ FerrousError::Io(_)) => return Err(e),
+                    Err(e) => RespFrame::error(e.to_string()),
+                }
             };
             responses.push(response);
         }
